@@ -240,6 +240,34 @@ func CheckHelperPair(r int32, ann map[string]string) (check, disc, detail string
 			}
 		}
 	}
+	// the answers depend on the arguments only: a caller that keeps one slot set and
+	// asks again (here with a larger replica count) gets the model's answer again,
+	// and its set is left as it was
+	if len(gs) != len(slots) {
+		return "C01.helper-mismatch", "argument-modified:" + cls, fmt.Sprintf("GetMaxReplicaCountAndDeleteSlots(r=%d, %q) changed the caller's slot set to %v", r, ann[annSlots], gs.List())
+	}
+	for k := range slots {
+		if !gs.Has(k) {
+			return "C01.helper-mismatch", "argument-modified:" + cls, fmt.Sprintf("GetMaxReplicaCountAndDeleteSlots(r=%d, %q) changed the caller's slot set to %v", r, ann[annSlots], gs.List())
+		}
+	}
+	if r < 1<<20 {
+		r2 := r + 2
+		D2 := Desired(r2, slots)
+		po3 := toMap(helper.GetPodOrdinalsFromReplicasAndDeleteSlots(r2, gs).List())
+		same := len(po3) == len(D2)
+		for _, x := range D2 {
+			if _, ok := po3[x]; !ok {
+				same = false
+			}
+		}
+		if !same {
+			return "C01.helper-mismatch", "history-dependent:" + cls, fmt.Sprintf("after a call with r=%d, GetPodOrdinalsFromReplicasAndDeleteSlots(r=%d, %q) = %v, model says %v", r, r2, ann[annSlots], keysOfStruct(po3), D2)
+		}
+		if b2, _ := helper.GetMaxReplicaCountAndDeleteSlots(r2, gs); b2 != Bound(r2, slots) {
+			return "C01.helper-mismatch", "history-dependent:" + cls, fmt.Sprintf("after a call with r=%d, GetMaxReplicaCountAndDeleteSlots(r=%d, %q) bound = %d, model says %d", r, r2, ann[annSlots], b2, Bound(r2, slots))
+		}
+	}
 	mx, mn := helper.GetMaxPodOrdinal(r, obj), helper.GetMinPodOrdinal(r, obj)
 	if len(D) > 0 {
 		if mx != D[len(D)-1] {
